@@ -278,6 +278,10 @@ def run(s):
         from vf import lean
         s.oblige("C01.lemmas.FiniteSums(lean)", lambda: lean.check_file("lemmas/FiniteSums.lean"), ["lemmas/FiniteSums.lean (sum rules: linearity, congruence, combination, "
                                                                                                      "positivity, permutation, weight scaling)"])
+    # the quantities of this property are DELIVERED through the writer rules (keyword -> quantity, file name, unit; a data file): C15's registry and writer-path obligations
+    # are registered here as well
+    from props import C15
+    C15.run(core.SubSession(s, lambda n: n.replace("C15.", "C01.delivery."), lambda n: n in ("C15.registry", "C15.writer_paths")))
     s.min_obligations = 30
 
 
